@@ -45,6 +45,23 @@ fn check(rep: &mut Report, b: &Build, cls: &str) {
     for decode in [false, true] {
         let mut p = Parser::new();
         let mut log = Vec::new();
+        // prior history must not matter: a quarter of the cases start after an abandoned group
+        // or a delivered one
+        match (f.payload.len() + f.n as usize + f.k as usize) % 8 {
+            0 => {
+                let l = nmea_ref::mk(3, 1, Some(77), &uniq_payload(901), 0);
+                let _ = p.parse(&l, false);
+                log.push((l, false));
+            }
+            1 => {
+                for k in 1..=2u8 {
+                    let l = nmea_ref::mk(2, k, f.id, &uniq_payload(902 + k as u64), 0);
+                    let _ = p.parse(&l, false);
+                    log.push((l, false));
+                }
+            }
+            _ => {}
+        }
         let acc = prime(&mut p, f.n, f.k, f.id, &mut log);
         if mon::is_noalloc() && acc.len() + f.payload.len() > 384 {
             rep.count("noalloc_over_capacity");
@@ -309,7 +326,7 @@ pub fn run(ctx: &Ctx, rep: &mut Report) {
         }
     }
     // random well-formed sentences
-    for _ in 0..ctx.budget(40_000, 1_500_000) {
+    for _ in 0..ctx.budget(400_000, 4_000_000) {
         let mut b = random_build(&mut r, 390);
         // keep numbering inside the domain and primable
         let n: u8 = b.n.parse::<u32>().unwrap_or(1).min(255) as u8;
